@@ -183,8 +183,8 @@ static std::string first_carquet_frame(const std::string& err, std::string* kind
         size_t a = err.find("api="); size_t e = err.find(' ', a);
         return a == std::string::npos ? "?" : err.substr(a + 4, e - a - 4);
     } else *kind = "unknown";
-    // frames: "    #1 0x... in func /path/file.c:123"
-    size_t q = 0;
+    // frames: "    #1 0x... in func /path/file.c:123"; start at the report itself (a verbose run prints SIM-FAULT stacks before it)
+    size_t q = p == std::string::npos ? 0 : p;
     std::string first_any;
     while ((q = err.find(" in ", q)) != std::string::npos) {
         size_t e = err.find('\n', q);
